@@ -22,7 +22,7 @@ fn line(parts: Vec<Part>) -> Stmt {
 
 /// names of the slot items (index = alphabet position); `i` = slot index for unique labels
 pub const ITEM_NAMES: &[&str] = &[
-    "text", "asg", "print", "glue-end", "glue-start", "tag", "cond-inline", "seq", "cycle", "once", "if-block", "fcall-value", "fcall-text", "fstmt-text", "tunnel", "temp", "string", "choice-basic", "choice-bracket", "choice-label", "choice-cond", "choice-fallback", "choice-nested", "thread", "count-knot", "turns-since", "choice-count", "divert-k2-back", "fcall-nested", "tag-alone", "line-divert", "choice-inline-divert",
+    "text", "asg", "print", "glue-end", "glue-start", "tag", "cond-inline", "seq", "cycle", "once", "if-block", "fcall-value", "fcall-text", "fstmt-text", "tunnel", "temp", "string", "choice-basic", "choice-bracket", "choice-label", "choice-cond", "choice-fallback", "choice-nested", "thread", "count-knot", "turns-since", "choice-count", "divert-k2-back", "fcall-nested", "tag-alone", "line-divert", "choice-inline-divert", "seq-block", "tunnel-onwards", "divert-args",
 ];
 
 pub fn item(a: usize, i: usize) -> Vec<Stmt> {
@@ -68,6 +68,22 @@ pub fn item(a: usize, i: usize) -> Vec<Stmt> {
             ],
             gather: Some(Gather { label: Some(lab("ihop")), parts: vec![t("Landed "), p(x()), t(".")] }),
         })],
+        // block-form sequence with a glued and a two-line element (L3b)
+        "seq-block" => vec![Stmt::SeqBlock(
+            SeqKind::Stopping,
+            vec![vec![Stmt::line("Block first.")], vec![line(vec![Part::Glue, t(" block second "), p(x()), t(".")]), Stmt::line("More second.")], vec![Stmt::line("Block last."), xplus(3)]],
+        )],
+        // `->-> target`: the tunnel returns to a label instead of to its caller (F1b); knot in extra_knots
+        "tunnel-onwards" => vec![
+            Stmt::Tunnel(lab("tunto")),
+            Stmt::line("Skipped by the override."),
+            Stmt::Weave(Weave { choices: vec![], gather: Some(Gather { label: Some(lab("tb")), parts: vec![t("Back via override "), p(x()), t(".")] }) }),
+        ],
+        // divert with arguments (K1b); knot in extra_knots
+        "divert-args" => vec![
+            Stmt::Divert(Target::KnotArgs(lab("kargs"), vec![x(), Expr::Int(2)])),
+            Stmt::Weave(Weave { choices: vec![], gather: Some(Gather { label: Some(lab("ka")), parts: vec![t("After args "), p(Expr::Count(lab("kargs"))), t(".")] }) }),
+        ],
         "temp" => vec![
             Stmt::Assign { name: lab("tmp"), expr: Expr::bin(x(), BinOp::Mul, Expr::Int(2)), kind: AssignKind::Set, temp_decl: true },
             line(vec![t("Temp "), p(Expr::var(&lab("tmp"))), t(".")]),
@@ -157,6 +173,23 @@ pub fn item(a: usize, i: usize) -> Vec<Stmt> {
     }
 }
 
+/// knots that belong to one slot item (their targets are labels of that slot, so they exist only
+/// in programs that use the item)
+pub fn extra_knots(a: usize, i: usize) -> Vec<Knot> {
+    let lab = |s: &str| format!("{s}{i}");
+    match ITEM_NAMES[a] {
+        "tunnel-onwards" => vec![Knot { name: lab("tunto"), params: vec![], is_function: false, body: vec![line(vec![t("In tunto "), p(x()), t(".")]), xplus(1), Stmt::TunnelReturnTo(Target::LabelIn("main".into(), lab("tb")))], stitches: vec![] }],
+        "divert-args" => vec![Knot {
+            name: lab("kargs"),
+            params: vec!["pa".into(), "pb".into()],
+            is_function: false,
+            body: vec![line(vec![t("Args "), p(Expr::var("pa")), t(" "), p(Expr::var("pb")), t(".")]), Stmt::Divert(Target::LabelIn("main".into(), lab("ka")))],
+            stitches: vec![],
+        }],
+        _ => vec![],
+    }
+}
+
 /// segment family: header + main knot with k slots + tail knots
 pub fn seg_count(k: usize, a: usize) -> usize {
     a.pow(k as u32)
@@ -164,6 +197,7 @@ pub fn seg_count(k: usize, a: usize) -> usize {
 
 pub fn seg_nth(k: usize, a: usize, mut idx: usize) -> (String, Program) {
     let mut body = vec![];
+    let mut extra: Vec<Knot> = vec![];
     let mut name = String::from("gen");
     for slot in 0..k {
         let ai = idx % a;
@@ -171,9 +205,10 @@ pub fn seg_nth(k: usize, a: usize, mut idx: usize) -> (String, Program) {
         name.push('-');
         name.push_str(ITEM_NAMES[ai]);
         body.extend(item(ai, slot));
+        extra.extend(extra_knots(ai, slot));
     }
     body.push(Stmt::Divert(Target::Knot("fin".into())));
-    let prog = Program {
+    let mut prog = Program {
         externals: vec![],
         globals: vec![("x".into(), Expr::Int(0)), ("y".into(), Expr::Int(0)), ("s".into(), Expr::Str("".into()))],
         root: vec![Stmt::Divert(Target::Knot("main".into()))],
@@ -213,6 +248,7 @@ pub fn seg_nth(k: usize, a: usize, mut idx: usize) -> (String, Program) {
             },
         ],
     };
+    prog.knots.extend(extra);
     (name, prog)
 }
 
@@ -239,6 +275,39 @@ pub fn loop_nth(k: usize, a: usize, idx: usize) -> (String, Program) {
     (name.replacen("gen", "loop", 1), prog)
 }
 
+/// labels (of gathers and choices) defined anywhere in `stmts`
+fn labels_of(stmts: &[Stmt]) -> Vec<String> {
+    let mut out = vec![];
+    for s in stmts {
+        match s {
+            Stmt::Weave(w) => {
+                if let Some(l) = w.gather.as_ref().and_then(|g| g.label.clone()) {
+                    out.push(l);
+                }
+                for c in &w.choices {
+                    out.extend(c.label.clone());
+                    out.extend(labels_of(&c.body));
+                }
+            }
+            Stmt::If { branches, else_ } => {
+                for (_, b) in branches {
+                    out.extend(labels_of(b));
+                }
+                if let Some(e) = else_ {
+                    out.extend(labels_of(e));
+                }
+            }
+            Stmt::SeqBlock(_, elems) => {
+                for e in elems {
+                    out.extend(labels_of(e));
+                }
+            }
+            _ => {}
+        }
+    }
+    out
+}
+
 /// stitch family: a knot without own content and two stitches; slot items sit in the stitches,
 /// flow moves between stitches and back into the knot from outside
 pub fn stitch_nth(k: usize, a: usize, idx: usize) -> (String, Program) {
@@ -258,7 +327,16 @@ pub fn stitch_nth(k: usize, a: usize, idx: usize) -> (String, Program) {
         choices: vec![sticky("to a", vec![Stmt::Divert(Target::Stitch("main".into(), "a".into()))]), sticky("to b", vec![Stmt::Divert(Target::Stitch("main".into(), "b".into()))]), once("via k2", vec![Stmt::Divert(Target::Knot("k2".into()))]), sticky("leave", vec![Stmt::Divert(Target::Knot("fin".into()))])],
         gather: None,
     }));
+    let in_a: Vec<String> = labels_of(&a_body);
     main.stitches = vec![("a".into(), a_body), ("b".into(), b_body)];
+    // labels addressed from other knots now live in a stitch: `main.a.label` / `main.b.label`
+    for k in prog.knots.iter_mut().skip(1) {
+        for s in k.body.iter_mut() {
+            if let Stmt::Divert(Target::LabelIn(p, l)) | Stmt::TunnelReturnTo(Target::LabelIn(p, l)) = s {
+                *p = if in_a.contains(l) { "main.a".into() } else { "main.b".into() };
+            }
+        }
+    }
     (name.replacen("gen", "stitch", 1), prog)
 }
 
@@ -553,6 +631,70 @@ pub fn calibration() -> Vec<(&'static str, Program)> {
         (
             "function/evaluating-function-variablestate-bug.ink.json",
             prog(vec![], vec![tl("Start"), Stmt::Tunnel("tunnel".into()), tl("End"), end()], vec![knot("tunnel", vec![tl("In tunnel."), Stmt::TunnelReturn])]),
+        ),
+        (
+            "knot/param-ints.ink.json",
+            prog(
+                vec![],
+                vec![
+                    tl("How much do you give?"),
+                    weave(
+                        vec![
+                            ch(false, "", "$1", "", vec![Stmt::InlineDivert(Target::KnotArgs("give".into(), vec![Expr::Int(1)]))]),
+                            ch(false, "", "$2", "", vec![Stmt::InlineDivert(Target::KnotArgs("give".into(), vec![Expr::Int(2)]))]),
+                            ch(false, "", "Nothing", "", vec![Stmt::InlineDivert(Target::KnotArgs("give".into(), vec![Expr::Int(0)]))]),
+                        ],
+                        None,
+                    ),
+                ],
+                vec![Knot { name: "give".into(), params: vec!["amount".into()], is_function: false, body: vec![line(vec![t("You give "), p(Expr::var("amount")), t(" dollars.")]), end()], stitches: vec![] }],
+            ),
+        ),
+        (
+            "knot/param-multi.ink.json",
+            prog(
+                vec![("x", Expr::Int(1)), ("y", Expr::Str("Hmm.".into()))],
+                vec![tl("How much do you give?"), weave(vec![ch(false, "", "I don't know", "", vec![Stmt::InlineDivert(Target::KnotArgs("give".into(), vec![x(), Expr::Int(2), Expr::var("y")]))])], None)],
+                vec![Knot {
+                    name: "give".into(),
+                    params: vec!["a".into(), "b".into(), "c".into()],
+                    is_function: false,
+                    body: vec![line(vec![t("You give "), p(Expr::var("a")), t(" or "), p(Expr::var("b")), t(" dollars. "), p(Expr::var("y"))]), end()],
+                    stitches: vec![],
+                }],
+            ),
+        ),
+        (
+            "tunnels/tunnel-onwards-divert-override.ink.json",
+            prog(
+                vec![],
+                vec![Stmt::Tunnel("A".into()), tl("We will never return to here!")],
+                vec![knot("A", vec![tl("This is A"), Stmt::TunnelReturnTo(Target::Knot("B".into()))]), knot("B", vec![tl("Now in B."), end()])],
+            ),
+        ),
+        (
+            "conditional/multiline-divert.ink.json",
+            prog(
+                vec![],
+                vec![to("test")],
+                vec![
+                    knot(
+                        "test",
+                        vec![
+                            Stmt::SeqBlock(
+                                SeqKind::Stopping,
+                                vec![
+                                    vec![tl("At the table, I drew a card. Ace of Hearts.")],
+                                    vec![line(vec![Part::Glue, t(" 2 of Diamonds.")]), tl("\"Should I hit you again,\" the croupier asks.")],
+                                    vec![line(vec![Part::Glue, t(" King of Spades.")]), to("he_crowed")],
+                                ],
+                            ),
+                            weave(vec![ch(true, "", "Draw a card", " I drew a card.", vec![Stmt::InlineDivert(Target::Knot("test".into()))])], None),
+                        ],
+                    ),
+                    knot("he_crowed", vec![tl("\"You lose,\" he crowed."), end()]),
+                ],
+            ),
         ),
         (
             "conditional/cycle.ink.json",
